@@ -44,14 +44,16 @@ type Result struct {
 }
 
 type Ctx struct {
-	ID     string
-	Tier   string
-	Seed   int64
-	Out    string
-	Rng    *rand.Rand
-	Res    *Result
-	Replay string // path of a replay file to re-execute (optional)
-	seen   map[string]bool
+	ID      string
+	Tier    string
+	Seed    int64
+	Out     string
+	Rng     *rand.Rand
+	Res     *Result
+	Replay  string // path of a replay file to re-execute (optional)
+	seen    map[string]bool
+	Scratch bool // a throw-away context (used while minimising): nothing is written
+	shrunk  map[string]bool
 }
 
 func NewCtx(id, tier string, seed int64, out string) *Ctx {
@@ -129,6 +131,9 @@ func (c *Ctx) Emit(name, kind string, imports []string, caseType, checker string
 }
 
 func (c *Ctx) Finish() {
+	if c.Scratch {
+		return
+	}
 	keys := make([]string, 0, len(c.Res.Distribution))
 	for k := range c.Res.Distribution {
 		keys = append(keys, k)
